@@ -169,6 +169,15 @@ func c03Run(c *core.Ctx) *core.Result {
 	dest := filepath.Join(caseDir, "work/p/dest")
 	os.MkdirAll(filepath.Join(outside, "dir/sub"), 0755)
 	os.MkdirAll(dest, 0755)
+	// the sentinel directory holds entries with the same names as the trees
+	// inside dest, so that an operation applied through a symlink to it
+	// (delete, chmod, replace of "d/a") hits something
+	for _, nm := range []string{"a", "b", "c", "a-b", "d", "ab"} {
+		os.WriteFile(filepath.Join(outside, "dir", nm), []byte("SENTINEL-"+nm), 0644)
+		os.MkdirAll(filepath.Join(outside, "dir/sub", nm), 0755)
+		os.WriteFile(filepath.Join(outside, "dir/sub", nm, "a"), []byte("SENTINEL-DEEP-"+nm), 0600)
+		os.WriteFile(filepath.Join(outside, nm), []byte("SENTINEL-TOP-"+nm), 0644)
+	}
 	os.WriteFile(filepath.Join(outside, "file"), []byte("SENTINEL-FILE"), 0644)
 	os.WriteFile(filepath.Join(outside, "dir/inner"), []byte("SENTINEL-INNER"), 0600)
 	os.WriteFile(filepath.Join(outside, "dir/sub/deep"), []byte("SENTINEL-DEEP"), 0640)
@@ -210,6 +219,54 @@ func c03Run(c *core.Ctx) *core.Result {
 		}
 		stats = append(stats, st)
 		content[e.Path] = e.Data
+	}
+	// legal but nasty: a directory of the prior destination (with children) is
+	// announced as a symlink / special file; the stale children must not be
+	// removed through the new entry
+	for _, pe := range prior.Entries {
+		if pe.Type != tree.Dir || !R.P(1, 3) {
+			continue
+		}
+		idx := -1
+		for i, st := range stats {
+			if st.Path == pe.Path {
+				idx = i
+			}
+			if strings.HasPrefix(st.Path, pe.Path+"/") {
+				idx = -2
+				break
+			}
+		}
+		if idx == -2 {
+			continue
+		}
+		par := tree.Parent(pe.Path)
+		parOK := par == ""
+		for _, st := range stats {
+			if st.Path == par && os.FileMode(st.Mode).IsDir() {
+				parOK = true
+			}
+		}
+		if !parOK {
+			continue
+		}
+		var st *types.Stat
+		switch R.Intn(4) {
+		case 0:
+			st = &types.Stat{Path: pe.Path, Mode: uint32(os.ModeNamedPipe | 0644), ModTime: 1e18}
+		default:
+			st = &types.Stat{Path: pe.Path, Mode: uint32(os.ModeSymlink | 0777), Linkname: core.Pick(R, []string{outside + "/dir", outside + "/dir/sub", outside, up + rc + "/outside/dir", caseDir + "/work/p"})}
+		}
+		if idx >= 0 {
+			stats[idx] = st
+		} else {
+			stats = append(stats, st)
+			// keep protocol order
+			for i := len(stats) - 1; i > 0 && tree.CmpPath(stats[i-1].Path, stats[i].Path) > 0; i-- {
+				stats[i-1], stats[i] = stats[i], stats[i-1]
+			}
+		}
+		r.Count("prior_dirs_announced_as_symlink_or_fifo", 1)
 	}
 	// one mutation
 	mut := core.Pick(R, []string{"none", "none", "dotdot", "dot", "empty", "updown", "dotdotx", "abs", "unclean", "dup", "order", "childofnondir", "noparent", "hl-unknown", "hl-later", "hl-escape", "hl-nonfile", "data-unsolicited", "data-afterterm", "backslash", "newline", "hugesize", "fin-early", "stat-after-end"})
